@@ -400,9 +400,10 @@ Definition c09_spec_on_obs (w : wcase) : bool :=
         if trav_fault_spec c t then oclass_eqb (o_class o) (OErr AbFs) else oclass_eqb (o_class o) OOk
       else
         oclass_eqb (o_class o) OOk
-        && list_eqb ep_eqb (calls (o_events o)) (filter (fun ep => not_lost c t (snd ep)) exp)
-        && list_eqb tpkg_eqb (o_inv o) (inventory_of_calls c (filter (fun ep => not_lost c t (snd ep)) exp))
-        && list_eqb est_eqb (o_status o) (map (fun e => (e, expected_status_faulty c t exp e)) (c_exts c))
+        && (negb (gi_readable c t)          (* an unreadable .gitignore contributes no patterns: no comparison claimed *)
+            || (list_eqb ep_eqb (calls (o_events o)) (filter (fun ep => not_lost c t (snd ep)) exp)
+                && list_eqb tpkg_eqb (o_inv o) (inventory_of_calls c (filter (fun ep => not_lost c t (snd ep)) exp))
+                && list_eqb est_eqb (o_status o) (map (fun e => (e, expected_status_faulty c t exp e)) (c_exts c))))
   | _ => true
   end.
 
